@@ -106,6 +106,7 @@ def rot1(p, res):
         if rot is None or u_j is None or u_i is None or u_j[0].key() != u_i[0].key():
             res.undec("ROT-1", "%s: operands of the update not recognised" % f.pretty)
             continue
+        rot = (rot[0], _rename_params(rot[1], f.uid))
         e_atoms = _deep_atoms(rot[1])
         # guards on the exponent anywhere up the closure chain
         guarded = None
@@ -114,6 +115,7 @@ def rot1(p, res):
             gs = chain_sym(p, g_fn, cache)
             cmps = dominating_cmps(g_fn, CFG(g_fn), Flow(g_fn), gs, at_block)
             for op, x, y in cmps:
+                x, y = _rename_params(x, g_fn.uid), _rename_params(y, g_fn.uid)
                 if op != "Ne":
                     continue
                 for u, v in ((x, y), (y, x)):
@@ -371,12 +373,129 @@ def ext1(p, res):
     return n
 
 
+def ext2(p, res):
+    """rotation of an extended lookup table in place: each interleaved polynomial is rotated (`vec_znx_rotate_assign(e, data[i])` in `(lo..hi).for_each`) and the vector of
+    polynomials is permuted (`data.rotate_right(l)` / `rotate_left`).  The sequence of operations of the function is replayed on the abstract state  slot -> (source polynomial,
+    exponent)  for small (ext, 2N, pos); the final state must be  slot d = X^(hi + [d < lo]) * source ((d - lo) mod ext)  for pos = hi * ext + lo."""
+    from . import pwl, sc
+    n = 0
+    cache = {}
+    T = ("deref", "deref_mut", "borrow", "borrow_mut", "as_mut", "as_ref")
+    for f in sorted(p.lib_fns(), key=lambda x: x.uid):
+        if f.kind == "Closure" or not f.blocks or not f.uid.startswith("poulpy_bin_fhe::blind_rotation"):
+            continue
+        perms = [(bi, t) for bi, t in f.calls() if (f.callee_def(t) or {}).get("n") in ("rotate_right", "rotate_left") and len(t["a"]) == 2]
+        if not perms:
+            continue
+        sym = chain_sym(p, f, cache)
+        plain = Flow(f, transparent=IT_T)
+        # for_each(range, closure) sites whose closure rotates data[i] in place
+        loops = {}
+        for bi, t in f.calls():
+            if (f.callee_def(t) or {}).get("n") != "for_each" or len(t["a"]) != 2:
+                continue
+            rg = _range_of(f, plain, sym, t["a"][0])
+            cl = None
+            for r in Flow(f).op_roots(t["a"][1]):
+                if r[0] == "agg":
+                    st = f.blocks[r[1]]["s"][r[2]][2]
+                    if st.get("ak") == "Closure":
+                        cl = p.fn(f.duid(st["clos"]))
+            if rg is None or cl is None:
+                continue
+            csym = chain_sym(p, cl, cache)
+            cflow = Flow(cl, transparent=T)
+            rots = [(b2, t2) for b2, t2 in cl.calls() if (cl.callee_def(t2) or {}).get("n") == "vec_znx_rotate_assign" and len(t2["a"]) >= 4]
+            if len(rots) != 1:
+                continue
+            ix = _indexed(cl, cflow, csym, rots[0][1]["a"][2])
+            if ix is None:
+                continue
+            loops[bi] = {"range": tuple(_rename_params(x, f.uid) for x in rg), "i": _rename_params(ix[1], cl.uid), "e": _rename_params(csym.operand(rots[0][1]["a"][1]), cl.uid),
+                         "var": ("cp", cl.uid, 2), "line": rots[0][1]["l"], "fn": cl}
+        if not loops:
+            continue
+        n += 1
+        div = None
+        for lp in loops.values():
+            for a in _deep_atoms(lp["e"]):
+                if a[0] == "f" and a[1] == "Div":
+                    div = a
+        if div is None:
+            res.undec("EXT-2", "%s: the rotation amount is not split as pos / ext" % f.pretty)
+            continue
+        pos, ext = Poly(dict(div[2][0])), Poly(dict(div[2][1]))
+        if len(pos.t) != 1 or len(ext.t) != 1:
+            res.undec("EXT-2", "%s: the split is not a quotient of two quantities" % f.pretty)
+            continue
+        pos_atom, ext_atom = list(pos.t)[0][0], list(ext.t)[0][0]
+        paths = sc.returning_paths(f, CFG(f), cap=64, unroll=1) or []
+        bad = None
+        pts = 0
+        seqs = set()
+        for path in paths:
+            seq = tuple(b for b in path if b in loops or any(b == pb for pb, _ in perms))
+            seqs.add(seq)
+        for seq in sorted(seqs):
+            for E in (2, 4, 8):
+                for N2 in (4, 8):
+                    for posv in range(N2 * E):
+                        H, L = posv // E, posv % E
+                        base = {repr(pos_atom): posv, repr(ext_atom): E}
+                        state = [(s_, 0) for s_ in range(E)]
+                        ok = True
+                        try:
+                            for b in seq:
+                                if b in loops:
+                                    lp = loops[b]
+                                    ev0 = pwl.Eval(p, dict(base, __fresh__=lambda k: 1))
+                                    lo, hi = ev0.poly(lp["range"][0]), ev0.poly(lp["range"][1])
+                                    for iv in range(lo, hi):
+                                        ev = pwl.Eval(p, dict(base, __fresh__=lambda k: 1))
+                                        ev.val[repr(lp["var"] + ((),))] = iv
+                                        ev.val[repr(lp["var"])] = iv
+                                        idx, amt = ev.poly(lp["i"]), ev.poly(lp["e"])
+                                        if not 0 <= idx < E:
+                                            ok = False
+                                            bad = bad or ({"ext": E, "pos": posv}, "slot %d outside [0, ext) is rotated" % idx, lp)
+                                            break
+                                        state[idx] = (state[idx][0], state[idx][1] + amt)
+                                else:
+                                    t = f.blocks[b]["t"]
+                                    ev0 = pwl.Eval(p, dict(base, __fresh__=lambda k: 1))
+                                    amt = ev0.poly(_rename_params(sym.operand(t["a"][1]), f.uid)) % E
+                                    if (f.callee_def(t) or {}).get("n") == "rotate_right":
+                                        state = [state[(d - amt) % E] for d in range(E)]
+                                    else:
+                                        state = [state[(d + amt) % E] for d in range(E)]
+                        except pwl.ErrPath:
+                            continue
+                        if not ok:
+                            continue
+                        pts += 1
+                        for d in range(E):
+                            want = ((d - L) % E, (H + (1 if d < L else 0)) % N2)
+                            have = (state[d][0], state[d][1] % N2)
+                            if have != want and bad is None:
+                                bad = ({"ext": E, "two_n": N2, "pos": posv, "slot": d}, "slot %d ends as X^%d * polynomial %d where pos = %d * ext + %d needs X^%d * polynomial %d"
+                                       % (d, have[1], have[0], H, L, want[1], want[0]), list(loops.values())[0])
+        if bad:
+            res.bad("EXT-2", f.pretty, "table-rotation",
+                    "%s, ext = %d, pos = %d: %s" % (f.pretty, bad[0].get("ext"), bad[0].get("pos"), bad[1]), site=bad[2]["fn"].where(bad[2]["line"]), detail=bad[0])
+        elif pts >= 50:
+            res.ok("EXT-2", {"fn": f.pretty, "loops": len(loops), "valuations": pts, "law": "slot d = X^(hi + [d < lo]) * source ((d - lo) mod ext)"})
+        else:
+            res.undec("EXT-2", "%s: too few valuations could be evaluated (%d)" % (f.pretty, pts))
+    return n
+
+
 def run(res, tier):
     res.level = "other"
     res.explanation = ("Only the skip guards of the CGGI accumulator update are decided: an update acc[i] += X^e * u[j] - u[i] whose execution depends on a comparison of the exponent with "
                        "zero has j == i symbolically (on the closure chain of the three execute variants). The modulus switch, the table encoding, the rotation arithmetic and the "
                        "noise are not decided.")
     res.rule("EXT-1", "extended blind rotation: destination polynomial i receives X^(hi + [i < lo]) * source ((i - lo) mod ext), every destination exactly once, for every split pos = hi * ext + lo")
+    res.rule("EXT-2", "in-place rotation of an extended lookup table: replaying the per-polynomial rotations and the permutation leaves slot d = X^(hi + [d < lo]) * source ((d - lo) mod ext)")
     res.rule("ROT-1", "an accumulator update skipped on `exponent == 0` has identical operand polynomials (X^e * u[j] - u[i] vanishes for e = 0 only when j == i)")
     res.assumptions = ["svp_apply_dft_to_dft(x_pow_a[e], u) multiplies u by X^e; x_pow_a[0] is the constant 1"]
     cfgs = ["avx-dev"] if tier == "quick" else ["avx-dev", "ref-dev"]
@@ -387,4 +506,6 @@ def run(res, tier):
         res.floor("ROT-1", "accumulator updates of the blind rotation", n, 2)
         ne = ext1(p, res)
         res.floor("EXT-1", "groups of interleaved move sites", ne, 2)
+        n2 = ext2(p, res)
+        res.floor("EXT-2", "in-place rotations of an extended table", n2, 1)
         res.fn_count += n
